@@ -17,6 +17,7 @@ def check(case):
     T = case.get('T', 333.15); Tp = case.get('Tp', 280.0) if mode == 'temperature' else None; pp = case.get('pp', 1.0) if mode == 'pressure' else None
     P1, P2 = case.get('P1', 0.03), case.get('P2', 0.0003)
     xs = [Composition(x, 'weight') for x in case.get('xs', [0.1, 0.3, 0.6])]
+    if case.get('feed_type') == 'molar': xs = [x.to_molar(mix) for x in xs]
     fl = [pv.calculate_partial_fluxes(T, x, 1e-9, Tp, pp, Permeance(P1), Permeance(P2)) for x in xs]
     curve = DiffusionCurve(mixture=mix, membrane_name='m', feed_temperature=T, feed_compositions=xs, partial_fluxes=fl, permeate_temperature=Tp, permeate_pressure=pp)
     for i, p in enumerate(curve.permeances):
@@ -32,7 +33,7 @@ def check(case):
                     k2 = (J[0] / (pf[0] - pp * y.first), J[1] / (pf[1] - pp * y.second))
                     if close(p[0].value, k2[0], 1e-9) and close(p[1].value, k2[1], 1e-9): tag = "KNOWN[K2] "
                 except Exception: pass
-            fails.append(tag + "%s mode, point %d: curve reports permeances (%r, %r) for fluxes computed with (%r, %r)" % (mode, i, p[0].value, p[1].value, P1, P2))
+            fails.append(tag + ("molar feed compositions, " if case.get('feed_type') == 'molar' else "") + "%s mode, point %d: curve reports permeances (%r, %r) for fluxes computed with (%r, %r)" % (mode, i, p[0].value, p[1].value, P1, P2))
     # from permeances (all units) and back in vacuum
     from pyvaporation.mixtures import get_partial_pressures
     for units in ('kg/(m2*h*kPa)', 'SI', 'GPU'):
@@ -51,6 +52,6 @@ def check(case):
 def corpus(seed, n):
     rng = random.Random(seed); out = []
     for mode in ('vacuum', 'temperature', 'pressure'):
-        for _ in range(2):
-            out.append(dict(mode=mode, builtin=rng.choice(['H2O_EtOH', 'H2O_MeOH']), T=rng.uniform(310, 360), Tp=rng.uniform(250, 290), pp=rng.uniform(0.2, 2.0), P1=10 ** rng.uniform(-3, -1), P2=10 ** rng.uniform(-5, -2)))
+        for r_ in range(2):
+            out.append(dict(mode=mode, feed_type='molar' if r_ else 'weight', builtin=rng.choice(['H2O_EtOH', 'H2O_MeOH']), T=rng.uniform(310, 360), Tp=rng.uniform(250, 290), pp=rng.uniform(0.2, 2.0), P1=10 ** rng.uniform(-3, -1), P2=10 ** rng.uniform(-5, -2)))
     return out
